@@ -34,6 +34,8 @@ module Pos :
 
   val iter : ('a1 -> 'a1) -> 'a1 -> positive -> 'a1
 
+  val size : positive -> positive
+
   val compare_cont : comparison -> positive -> positive -> comparison
 
   val compare : positive -> positive -> comparison
